@@ -77,6 +77,8 @@ class E2(Exception):
         self.b = b
 class E3(E1):
     pass
+class B1(BaseException):
+    pass
 def H(x):
     LOG.append(('H', _r(x)))
     r = 0
@@ -194,6 +196,7 @@ class Profile(object):
   use_augassign = True
   use_tuple_assign = True
   use_unusual = False
+  use_base_exc = True       # raise / catch a BaseException that is not an Exception
   comp_shadow = False       # C08: comprehensions whose first iterable mentions the target's own name
   hostile_finally = False   # C05 only: try statements and jumps inside finally blocks
 
@@ -802,8 +805,10 @@ class Gen(object):
       self.emit(ind, "raise E2('x', %s)" % self.atom(fc, blk))
     elif r < 0.75:
       self.emit(ind, "raise E3('sub')")
-    elif r < 0.9:
+    elif r < 0.85:
       self.emit(ind, "raise ValueError(%s)" % self.atom(fc, blk))
+    elif r < 0.93 and self.p.use_base_exc:
+      self.emit(ind, "raise B1('b%d')" % self.rng.randint(0, 9))     # not an Exception: passes `except Exception`
     else:
       self.emit(ind, 'raise KeyError')
     blk.dead = True
@@ -857,8 +862,10 @@ class Gen(object):
           hdr = 'except E1 as %s:' % en
         elif r < 0.72:
           hdr = 'except E2:'
-        elif r < 0.85:
+        elif r < 0.82:
           hdr = 'except Exception:'
+        elif r < 0.88 and self.p.use_base_exc:
+          hdr = self.rng.choice(['except BaseException:', 'except B1:', 'except (B1, E1):'])
         elif k == nh - 1 and not used_bare:
           hdr = 'except:'
           used_bare = True
